@@ -96,7 +96,7 @@ func runTVDriver(c *Ctx, rule string) {
 		appendOK := false
 		var ctorBlocks []*ssa.BasicBlock
 		for _, g := range unitFns(u, ctor) {
-			if g.Name() != "readRowGroup" {
+			if g != roleFunc(u, path, "readRowGroup") {
 				ctorBlocks = append(ctorBlocks, g.Blocks...)
 			}
 		}
